@@ -166,6 +166,14 @@ type st struct {
 	pool []*ent
 	prog []string
 	dead bool // a check failed: stop the program
+
+	rlk   *rlwe.RelinearizationKey
+	gks   []*rlwe.GaloisKey
+	evTag string // "" for the evaluator returned by the constructor, else how the current one was derived
+
+	hasP       bool        // the parameters have an auxiliary modulus (hoisted rotations are defined only then)
+	evals      []namedEval // "copy" cases: the evaluators the calls of a program are spread over
+	lateCopies bool
 }
 
 const hiPrec = 200
@@ -177,6 +185,9 @@ func build(c *eng.Ctx, cfg pcfg) *st {
 	}
 	if cfg.XsH > 0 {
 		lit.Xs = ring.Ternary{H: cfg.XsH}
+	}
+	if cfg.XeSigma > 0 {
+		lit.Xe = ring.DiscreteGaussian{Sigma: cfg.XeSigma, Bound: cfg.XeBound}
 	}
 	params, err := ckks.NewParametersFromLiteral(lit)
 	if err != nil {
@@ -229,6 +240,7 @@ func build(c *eng.Ctx, cfg pcfg) *st {
 	}
 	rlk := kg.GenRelinearizationKeyNew(s.sk)
 	gks := kg.GenGaloisKeysNew(gals, s.sk)
+	s.rlk, s.gks = rlk, gks
 	s.eval = ckks.NewEvaluator(params, rlwe.NewMemEvaluationKeySet(rlk, gks...))
 	s.enc = rlwe.NewEncryptor(params, s.sk)
 	s.dec = rlwe.NewDecryptor(params, s.sk)
@@ -258,13 +270,16 @@ func build(c *eng.Ctx, cfg pcfg) *st {
 		s.T = v.mag()*1.0001 + 1e-6
 	}
 	// key-switching noise (slot norm) per level: F * ( N*Be*sum_i (a_i+1) Q_Di / P + (#P+2)(1+T) )
+	// (without an auxiliary modulus every prime of Q is a digit of its own and nothing is divided out)
 	alpha := params.PCount()
+	s.hasP = alpha > 0
+	dig := max(alpha, 1)
 	for l := range s.q {
 		sum := fnew()
-		for i := 0; i*alpha <= l; i++ {
+		for i := 0; i*dig <= l; i++ {
 			qd := fF(1)
 			cnt := 0
-			for j := i * alpha; j < (i+1)*alpha && j <= l; j++ {
+			for j := i * dig; j < (i+1)*dig && j <= l; j++ {
 				qd = fmul(qd, s.qf[j])
 				cnt++
 			}
@@ -361,6 +376,9 @@ type expect struct {
 	pred     string  // predicate naming the input class when it is one with a separately triaged behaviour
 	depth    int
 	uneq     bool
+	degMax   int  // > deg: the receiver had this (larger) degree; it may keep it (zero-filled) or be shrunk
+	lvlAlt   int  // identity rotation (a plain copy): the level of the input is an accepted outcome too
+	hasAlt   bool // lvlAlt is set
 }
 
 func (s *st) witness(ex *expect, extra string) any {
@@ -428,6 +446,77 @@ func (s *st) expectError(op, why string, f func() error) {
 	}
 }
 
+// snapshot / sameEl: bit-exact comparison of an operand before and after a call.
+type elSnap struct {
+	el   *rlwe.Element[ring.Poly]
+	meta rlwe.MetaData
+	nilM bool
+	vals [][][]uint64
+}
+
+func snapshot(el *rlwe.Element[ring.Poly]) elSnap {
+	sn := elSnap{el: el, nilM: el.MetaData == nil}
+	if !sn.nilM {
+		sn.meta = *el.MetaData.CopyNew()
+	}
+	for _, p := range el.Value {
+		var rows [][]uint64
+		for _, row := range p.Coeffs {
+			rows = append(rows, append([]uint64(nil), row...))
+		}
+		sn.vals = append(sn.vals, rows)
+	}
+	return sn
+}
+
+func (sn elSnap) changed() string {
+	el := sn.el
+	if (el.MetaData == nil) != sn.nilM {
+		return "MetaData pointer"
+	}
+	if !sn.nilM {
+		m := el.MetaData
+		if m.Scale.Value.Cmp(&sn.meta.Scale.Value) != 0 || m.IsNTT != sn.meta.IsNTT || m.IsMontgomery != sn.meta.IsMontgomery || m.IsBatched != sn.meta.IsBatched || m.LogDimensions != sn.meta.LogDimensions {
+			return fmt.Sprintf("MetaData %+v -> %+v", sn.meta, *m)
+		}
+	}
+	if len(el.Value) != len(sn.vals) {
+		return fmt.Sprintf("degree %d -> %d", len(sn.vals)-1, len(el.Value)-1)
+	}
+	for i, p := range el.Value {
+		if len(p.Coeffs) != len(sn.vals[i]) {
+			return fmt.Sprintf("level %d -> %d", len(sn.vals[i])-1, len(p.Coeffs)-1)
+		}
+		for j, row := range p.Coeffs {
+			for k, v := range row {
+				if v != sn.vals[i][j][k] {
+					return fmt.Sprintf("coefficient [%d][%d][%d]", i, j, k)
+				}
+			}
+		}
+	}
+	return ""
+}
+
+// refuse: the documented outcome of f is an error; a panic or success is a violation, and so is any
+// change to the input operands `ins` (a program that ignores the refusal goes on using them).
+func (s *st) refuse(op, why string, f func() error, ins ...*rlwe.Element[ring.Poly]) {
+	var snaps []elSnap
+	for _, el := range ins {
+		if el != nil {
+			snaps = append(snaps, snapshot(el))
+		}
+	}
+	s.c.Count("refusals_checked", 1)
+	s.expectError(op, why, f)
+	for i, sn := range snaps {
+		s.c.Eval(1)
+		if ch := sn.changed(); ch != "" {
+			s.c.Violate("C06|Evaluator."+op+"|operand-modified-by-refused-call|"+why, fmt.Sprintf("input operand %d changed: %s", i, ch), map[string]any{"cfg": s.cfg, "program": s.prog})
+		}
+	}
+}
+
 var tol100 = math.Ldexp(1, -100)
 
 // judge compares the output of one evaluator call with the expectation; returns the new pool
@@ -437,7 +526,15 @@ func (s *st) judge(ex *expect, out *rlwe.Ciphertext) *ent {
 	c.Eval(1)
 	c.Count("ops_judged", 1)
 	c.Count("op_"+ex.op, 1)
-	c.Distinct(ex.key+"|"+s.cfg.Fam+"|ls"+fmt.Sprint(s.cfg.LogScale/10*10), ex.nontriv || s.cfg.Fam != "std64")
+	if s.evTag != "" {
+		c.Distinct(ex.key+"|"+s.cfg.Fam+"|ls"+fmt.Sprint(s.cfg.LogScale/10*10)+"|eval="+s.evTag, true)
+		c.Count("ops_on_derived_evaluator", 1)
+	} else {
+		c.Distinct(ex.key+"|"+s.cfg.Fam+"|ls"+fmt.Sprint(s.cfg.LogScale/10*10), ex.nontriv || s.cfg.Fam != "std64")
+	}
+	if s.cfg.Tag != "" {
+		c.Count("ops_edge_"+s.cfg.Tag, 1)
+	}
 	fail := func(class, detail string) *ent {
 		c.Violate(ex.sig(class), detail+" ["+ex.key+"] prog="+fmt.Sprint(s.prog), s.witness(ex, detail))
 		return nil
@@ -471,11 +568,14 @@ func (s *st) judge(ex *expect, out *rlwe.Ciphertext) *ent {
 			at, dec[at], ex.want[at], math.Log2(e), math.Log2(ex.B), flog2(got), out.Level(), mag))
 	}
 	// 3. level / degree / dimensions
-	if out.Level() != ex.level {
+	if out.Level() != ex.level && !(ex.hasAlt && out.Level() == ex.lvlAlt) {
 		return fail("wrong-level", fmt.Sprintf("level %d, documented %d", out.Level(), ex.level))
 	}
-	if out.Degree() != ex.deg {
+	if out.Degree() != ex.deg && !(out.Degree() > ex.deg && out.Degree() <= ex.degMax) {
 		return fail("wrong-degree", fmt.Sprintf("degree %d, expected %d", out.Degree(), ex.deg))
+	}
+	if out.IsMontgomery {
+		return fail("malformed-output", "IsMontgomery set on an evaluator output")
 	}
 	if out.LogDimensions.Cols != ex.logSlots || out.LogDimensions.Rows != 0 || !out.IsBatched {
 		return fail("wrong-dimensions", fmt.Sprintf("LogDimensions %+v batched=%v, expected cols=%d", out.LogDimensions, out.IsBatched, ex.logSlots))
